@@ -12,7 +12,7 @@ import wlgen
 
 PROBE = os.path.join(common.VERIF, 'harness', 'aux', 'repro_probe.py')
 ANCHORED = ['src/lingpy/compare/lexstat.py', 'src/lingpy/algorithm/clustering.py', 'src/lingpy/thirdparty/linkcomm/link_clustering.py',
-            'src/lingpy/align/sca.py', 'src/lingpy/basic/parser.py', 'src/lingpy/basic/wordlist.py', 'src/lingpy/compare/partial.py']
+            'src/lingpy/align/sca.py', 'src/lingpy/align/multiple.py', 'src/lingpy/basic/parser.py', 'src/lingpy/basic/wordlist.py', 'src/lingpy/compare/partial.py']
 INVENTORY = os.path.join(common.VERIF, 'corpus', 'c18_inventory.json')
 
 
